@@ -212,6 +212,7 @@ const streqAxioms = `(declare-fun streq (Str Str) Bool)
 (assert (forall ((a Str)) (! (streq a a) :pattern ((streq a a)))))
 (assert (forall ((a Str) (b Str)) (! (=> (and (= (s.len a) (s.len b)) (=> (and (<= 0 (streq.wit a b)) (< (streq.wit a b) (s.len a))) (= (s.at a (streq.wit a b)) (s.at b (streq.wit a b))))) (streq a b)) :pattern ((streq a b)))))
 (assert (forall ((a Str) (b Str)) (! (= (streq a b) (streq b a)) :pattern ((streq a b)))))
+(assert (forall ((a Str) (b Str) (c Str)) (! (=> (and (streq a b) (streq b c)) (streq a c)) :pattern ((streq a b) (streq b c)))))
 `
 
 const strcatAxioms = `(declare-fun strcat (Str Str) Str)
